@@ -23,7 +23,7 @@ LEVEL_RULE = (
 EXHAUSTIVE_SUBDOMAINS = ["every NL band 1..59 x hemisphere x newer parity (directed)"]
 ASSUMPTIONS = ["positions whose recovered latitude is within 1e-9 deg of an NL transition are ambiguous, not judged",
                "receiver latitude clamped to [-90,90]; equal timestamps accept either frame"]
-REQUIRED = ["value_result", "datetime_ts", "aware_datetime_ts", "dst_change_ts", "no_ref_rejected", "rx_other_hemisphere", "rx_lat_zero", "rx_across_antimeridian",
+REQUIRED = ["value_result", "datetime_ts", "aware_datetime_ts", "dst_change_ts", "reference_is_previous_fix", "no_ref_rejected", "rx_other_hemisphere", "rx_lat_zero", "rx_across_antimeridian",
             "rx_across_greenwich", "newer_even", "newer_odd", "target_south", "target_west"] + \
            ["band%d" % nl for nl in range(1, 60)]
 
@@ -141,6 +141,13 @@ def m_surface(ctx, case):
             key = "wrong-longitude-quadrant" if worst[2] > 1000 else "wrong-position"
         ctx.violation(key, frames=[m0, m1], te=te, to=to, rx=case["rx"], result=res, p0=case["p0"], p1=case["p1"],
                       err_steps=worst)
+    if ok and case.get("addr", 0) % 4 == 0:
+        # a tracker feeds the fix it just got back as the reference for the next decode of the (unchanged) pair: 0 NM away
+        again = call(fn, m0, m1, T0, T1, lat, lon)
+        ctx.ev()
+        ctx.hit("reference_is_previous_fix")
+        if again[0] != "ok" or again[1] is None or abs(again[1][0] - lat) > 1e-9 or cpr.lon_diff(again[1][1], lon) > 1e-9:
+            ctx.violation("decode-with-previous-fix-as-reference-differs", frames=[m0, m1], first=[lat, lon], again=again[1:])
     ctx.nontrivial(("s", m0, m1, case["rx"], te > to, to > te))
     if ctx.rng.random() < 0.0005:
         ctx.sample({"even": m0, "odd": m1, "te": te, "to": to, "rx": case["rx"], "result": res, "p_even": case["p0"]})
